@@ -91,6 +91,8 @@ func main() {
 	flag.Var(&fnNames, "fn", "harness function name (repeatable)")
 	flag.Var(&params, "param", "harness parameter name=value (repeatable)")
 	var ufs, noops strList
+	inputsFile := flag.String("inputs", "", "debugging: JSON file with concrete harness inputs ({\"inputs\": [...]})")
+	trace := flag.Bool("trace", false, "print vDebug output")
 	flag.Var(&noops, "noop", "replace this function (full name) by a no-op returning zero values (repeatable)")
 	flag.Var(&ufs, "uf", "summarise this function (full name) as an uninterpreted function (repeatable)")
 	flag.Parse()
@@ -181,6 +183,20 @@ func main() {
 		c.UFs = map[string]bool{}
 		for _, u := range ufs {
 			c.UFs[u] = true
+		}
+		c.Trace = *trace
+		if *inputsFile != "" {
+			var f struct {
+				Inputs []InputVal `json:"inputs"`
+			}
+			b, err := os.ReadFile(*inputsFile)
+			if err != nil {
+				fatal(err)
+			}
+			if err := json.Unmarshal(b, &f); err != nil {
+				fatal(err)
+			}
+			c.Fixed = f.Inputs
 		}
 		c.Noops = map[string]bool{}
 		for _, u := range noops {
